@@ -270,7 +270,7 @@ class ProcessSpec:
         if namespace_options is None:
             namespace_options = {}
 
-        if exclude and include is not None:
+        if exclude is not None and include is not None:
             raise ValueError('exclude and include are mutually exclusive')
 
         if namespace:
